@@ -168,6 +168,10 @@ pub fn campaigns(ctx: &Ctx) -> Stats {
             let cfg = custom_cfg(t, exact);
             st.merge(ctx.run_prop(name, total / 2, move || recipe_strategy(len), move |r| Some(Case11::H(HistCase { oracle: "c11".into(), hist: elaborate(&cfg, r) }))));
         }
+        for (name, p) in [("programs-with-large-dimensions", Profile::LargeDims), ("programs-with-wide-magnitudes", Profile::WideMagnitudes)] {
+            let cfg = custom_cfg(t, false).with_profile(p, t == Tier::Thorough, crate::exec::IS_F32);
+            st.merge(ctx.run_prop(name, profile_total(t, p), move || recipe_strategy(len), move |r| Some(Case11::H(HistCase { oracle: "c11".into(), hist: elaborate(&cfg, r) }))));
+        }
     }
     st
 }
